@@ -1,6 +1,7 @@
 import Driver.Proto
 import AdaptaVerif.Model.Geometry
 import AdaptaVerif.Gen.Geometry
+import AdaptaVerif.Gen.GeometryK2
 /-!
 Driver mode c16. For every call made by the harness the answer of the implementation is compared
 with (a) the hand model `Model.Geometry.f` (whose geometric meaning is proved in Props/C16.lean) —
@@ -54,13 +55,13 @@ def ans4M (a b c d : Pt) : Ans4 :=
     ipPt := if ip.1 == 1 then some (ip.2.1, ip.2.2) else none
     rpPt := if rp.1 == 1 then some (rp.2.1, rp.2.2) else none }
 
-/-- generated kernels (segmentShapeIntersect has a reference parameter and is hand-modelled only) -/
+/-- generated kernels (segmentShapeIntersect, with its in/out reference parameter, from Gen/GeometryK2) -/
 def ans4G (a b c d : Pt) : Ans4 :=
   let ip := G.segmentIntersectPoint a b c d
   let rp := G.rayIntersectPoint a b c d
   { si := bit (G.segmentIntersect a b c d)
-    ss0 := ssChar (segmentShapeIntersect a b c d false)
-    ss1 := ssChar (segmentShapeIntersect a b c d true)
+    ss0 := ssChar (AdaptaVerif.Gen.GeometryK2.segmentShapeIntersect a b c d false)
+    ss1 := ssChar (AdaptaVerif.Gen.GeometryK2.segmentShapeIntersect a b c d true)
     cs := dirChar (G.cornerSide a b c d)
     vr := digit ((if G.inValidRegion false a b c d then 1 else 0) + (if G.inValidRegion true a b c d then 2 else 0))
     ip := digit ip.1.toNat, rp := digit rp.1.toNat
@@ -168,9 +169,10 @@ def checkGridTuples (c : Case) : CaseResult := Id.run do
 def polyAns (poly : List Pt) (q : Pt) : Nat :=
   (if inPoly poly q true then 1 else 0) + (if inPoly poly q false then 2 else 0) + (if inPolyGen poly q then 4 else 0)
 
-/-- the generated loop kernel `Gen.Geometry.inPoly` on the same query (bits 1,2 only) -/
+/-- the generated loop kernels `Gen.Geometry.inPoly` and `Gen.GeometryK2.inPolyGen` on the same query -/
 def polyAnsG (poly : List Pt) (q : Pt) : Nat :=
-  (if AdaptaVerif.Gen.Geometry.inPoly poly q true then 1 else 0) + (if AdaptaVerif.Gen.Geometry.inPoly poly q false then 2 else 0)
+  (if AdaptaVerif.Gen.Geometry.inPoly poly q true then 1 else 0) + (if AdaptaVerif.Gen.Geometry.inPoly poly q false then 2 else 0) +
+  (if AdaptaVerif.Gen.GeometryK2.inPolyGen poly q then 4 else 0)
 
 def checkGridPolys (c : Case) : CaseResult := Id.run do
   let side := nat! (((c.get1 "side").getD #["0"])[0]!)
@@ -190,8 +192,8 @@ def checkGridPolys (c : Case) : CaseResult := Id.run do
         if m % 2 == 1 then inside := inside + 1
         if tri[it]? != some (digit m) then
           return { verdict := .specfail s!"inPoly/inPolyGen triangle ({i0},{i1},{i2}) q={q} side={side}: impl {tri[it]?} exact {m} (bits: inPoly border, inPoly strict, inPolyGen)" }
-        if polyAnsG poly (gridPt side q) != m % 4 then
-          return { verdict := .diverge s!"inPoly triangle ({i0},{i1},{i2}) q={q}: generated kernel differs from model (translator)" }
+        if polyAnsG poly (gridPt side q) != m then
+          return { verdict := .diverge s!"inPoly triangle ({i0},{i1},{i2}) q={q}: generated kernel differs from model (translator; bits: inPoly border, inPoly strict, inPolyGen)" }
         it := it + 1
       if quads then
         for i3 in [0:n] do
@@ -247,7 +249,7 @@ def checkRandomPolys (c : Case) : CaseResult := Id.run do
         if m % 2 == 1 then inside := inside + 1
         if impl != m then
           return { verdict := .specfail s!"inPoly/inPolyGen poly={poly.map (fun p => (ratToString p.x, ratToString p.y))} q=({ratToString q.x},{ratToString q.y}): impl {impl} exact {m} (bits: inPoly border, inPoly strict, inPolyGen)" }
-        if polyAnsG poly q != m % 4 then
+        if polyAnsG poly q != m then
           return { verdict := .diverge s!"inPoly random polygon: generated kernel differs from model (translator)" }
   return { verdict := .ok, nontrivial := inside > 0, stats := [("calls", calls), ("inpoly.true", inside)] }
 
